@@ -213,6 +213,8 @@ SCHEDULES = [
     ("double-stop", {}, [(0, "go infinite"), (80, "stop"), (0, "stop")], 1),
     ("stop-with-slow-command-loop", {"command_done": 150}, [(0, "go infinite"), (0, "stop")], 1),
     ("three-quick-rounds", {}, [(0, "go depth 1"), (250, "go depth 1"), (250, "go depth 1")], 3),
+    ("go-refused-twice-while-searching", {}, [(0, "go infinite"), (60, "go depth 1"), (30, "go depth 1"), (30, "isready"), (30, "stop")], 1),
+    ("go-refused-then-stop-then-go", {}, [(0, "go infinite"), (60, "go depth 1"), (30, "stop"), (150, "go depth 1")], 2),
 ]
 
 
@@ -409,6 +411,21 @@ def c15_extra(tier, seed, ctx):
             violations.append(viol("C15", "panic-on-stderr", f"session={sidx} stderr={[l for _, l in eng.errlines() if 'panicked' in l][:2]} lines={lines[:10]}"))
         if len(samples) < 3:
             samples.append(f"session {sidx}: {lines[:5]} ... -> {what}: exit {rc} in {dt * 1000:.0f} ms")
+    # a go that is refused (a search is running) must not wedge the command loop, however often it is repeated
+    for script in (["go infinite", "go depth 1", "go depth 1", "isready"], ["go", "go", "go", "stop", "isready"], ["go infinite", "go nodes 5", "position startpos", "go movetime 10", "isready"]):
+        eng = Engine(ctx["engine"])
+        for l in script:
+            eng.send(l)
+            time.sleep(0.05)
+        ok = eng.wait_for(lambda l: l == "readyok", 3.0)
+        evals += 1
+        distinct.add("refused-go: " + " / ".join(script))
+        if ok is None:
+            violations.append(viol("C15", "wedged-after-refused-go", f"script={script}: no readyok within 3 s; stderr={[l for _, l in eng.errlines()][-3:]}"))
+        eng.send("quit")
+        rc, dt = eng.close(3.0)
+        if rc != 0:
+            violations.append(viol("C15", "quit-not-honoured", f"script={script}: exit {rc} after {dt:.1f}s"))
     # end of input while an unbounded search is running: the engine must still terminate promptly
     for script in (["position startpos", "go infinite"], ["go"], ["position startpos moves e2e4", "go ponder"], ["go depth 200"], ["go infinite", "isready"]):
         eng = Engine(ctx["engine"])
